@@ -1,0 +1,73 @@
+//! Verification hooks (only compiled with `--cfg dashu_verif`).
+//!
+//! * site counters: `hit(SITE)` is one relaxed atomic increment at an internal decision point,
+//!   `hits(SITE)` reads it back. They never influence any computation.
+//! * fuel: `tick(SITE)` is placed in loops whose exit is a numeric condition. When fuel is
+//!   armed (`set_fuel(Some(n))`) and runs out, `tick` panics with a marker message so that a
+//!   monitor can observe non-termination as a logical-step property.
+
+use core::sync::atomic::{AtomicU64, Ordering::Relaxed};
+
+macro_rules! sites {
+    ($($name:ident = $id:expr),* $(,)?) => {
+        $(pub const $name: usize = $id;)*
+        /// Names of all sites, indexed by id.
+        pub const SITE_NAMES: &[(&str, usize)] = &[$((stringify!($name), $id)),*];
+    };
+}
+
+sites! {
+    MUL_SIMPLE = 0, MUL_KARATSUBA = 1, MUL_TOOM3 = 2, SQR_SIMPLE = 3, SQR_VIA_MUL = 4,
+    DIV_SIMPLE = 5, DIV_DC = 6, DIV_WORD = 7, DIV_DWORD = 8,
+    GCD_LEHMER_STEP = 9, GCD_LEHMER_FALLBACK = 10, GCD_WORD = 11, GCD_DWORD = 12,
+    FMT_DC = 13, FMT_CHUNK = 14, PARSE_DC = 15, PARSE_CHUNK = 16,
+    REPR_FROM_BUFFER_SHRINK = 17, CLONE_FROM_REUSE = 18, CLONE_FROM_REALLOC = 19,
+    FADD_SAME_EXP = 20, FADD_OVERLAP = 21, FADD_FAR = 22, FADD_NEAR = 23,
+    CONVBASE_POW = 24, CONVBASE_SMALL = 25, CONVBASE_LNEXP = 26,
+    LOOP_IACOTH = 32, LOOP_LN = 33, LOOP_EXP = 34, LOOP_POWI = 35, LOOP_NTH_ROOT = 36,
+    LOOP_LEHMER = 37, LOOP_FAREY = 38, LOOP_SIMPLEST = 39, LOOP_REMOVE = 40, LOOP_LOG = 41,
+}
+
+const N_SITES: usize = 48;
+#[allow(clippy::declare_interior_mutable_const)]
+const ZERO: AtomicU64 = AtomicU64::new(0);
+static COUNTERS: [AtomicU64; N_SITES] = [ZERO; N_SITES];
+static FUEL: AtomicU64 = AtomicU64::new(u64::MAX);
+
+/// Record that an internal site was reached.
+#[inline]
+pub fn hit(site: usize) {
+    COUNTERS[site].fetch_add(1, Relaxed);
+}
+
+/// Number of times a site was reached so far.
+pub fn hits(site: usize) -> u64 {
+    COUNTERS[site].load(Relaxed)
+}
+
+/// Arm (`Some(n)`) or disarm (`None`) the logical fuel.
+pub fn set_fuel(fuel: Option<u64>) {
+    FUEL.store(fuel.unwrap_or(u64::MAX), Relaxed);
+}
+
+/// Remaining fuel (`None` when disarmed).
+pub fn fuel() -> Option<u64> {
+    match FUEL.load(Relaxed) {
+        u64::MAX => None,
+        n => Some(n),
+    }
+}
+
+/// One iteration of a numerically terminated loop.
+#[inline]
+pub fn tick(site: usize) {
+    hit(site);
+    let f = FUEL.load(Relaxed);
+    if f != u64::MAX {
+        if f == 0 {
+            FUEL.store(u64::MAX, Relaxed);
+            panic!("VERIF_FUEL_EXHAUSTED site={}", site);
+        }
+        FUEL.store(f - 1, Relaxed);
+    }
+}
